@@ -25,7 +25,7 @@ FLOORS = {"quick": {"graphs_checked": 3000, "edges_compared": 40000, "distinct_n
 
 
 def plan(tier, seed):
-    n = 64 if tier == "quick" else 1600
+    n = 192 if tier == "quick" else 1600
     return [{"seed": seed * 1000807 + i, "n": 60} for i in range(n)]
 
 
